@@ -607,3 +607,18 @@ package datastore
 //@   modifies *
 //@   invariant loop 9: forall id dvid.RepoID :: visited9[id] && has(m.repoToUUID, id) ==> has(m.repos, m.repoToUUID[id]) && m.repos[m.repoToUUID[id]] != nil
 //@   assert at "if saveCache {": forall id dvid.RepoID :: has(m.repoToUUID, id) ==> has(m.repos, m.repoToUUID[id]) && m.repos[m.repoToUUID[id]] != nil
+
+// renameDataByName (C11, C06): the name checks (old name present, new name unused) and the re-keying of the
+// instance in the repo's name map are one critical section of the repo write lock - two concurrent renames
+// to one name, or a rename racing an instance creation, cannot both be acknowledged, and a rename never
+// moves a name that has just been renamed away.
+//@ func repoManager.renameDataByName
+//@   prop C11 C06
+//@   requires m != nil
+//@   lockset
+//@   interference
+//@   lockbalance
+//@   safety_off
+//@   calls_havoc
+//@   modifies *
+//@   assert at "r.data[newname] = r.data[oldname]": heldw("r.RWMutex") && has(r.data, oldname) && !has(r.data, newname)
